@@ -18,7 +18,8 @@ LEVEL_TEXT = ('Kernel-checked theorems (Props/C19.v).  Mathcomp, any real field:
               'numerical range of A -- the exact-arithmetic reason why the Arnoldi/Lanczos spectral-radius estimate never '
               'exceeds the true spectral radius.  Unbounded, any scalar type and any valid matrix of any size: the models of the '
               'CSC row / column scaling kernels multiply every stored entry by the scale of its row / column and change nothing '
-              'else, and the diagonal-relative row filter (no lumping) zeroes in row r exactly the entries with |a| < theta |a_rr|.  '
+              'else, the diagonal-relative row filter (no lumping) zeroes in row r exactly the entries with |a| < theta |a_rr|, and with '
+              'lumping a row that stores its diagonal gets those entries added to the diagonal, so its row sum is preserved.  '
               'The Gallina models of csc_scale_rows/columns, filter_matrix_rows (with '
               'and without lumping) and truncate_rows_csr (with its in-place two-array quicksort) must agree bit-for-bit '
               'with the rebuilt working-tree kernels; an oracle checks every utility against its definition in CSR / CSC '
@@ -36,7 +37,7 @@ RULE = ('random sparse matrices n<=9 in CSR/CSC/BSR/COO with integer, dyadic and
 RULE += (' '
          'Block pseudo-inverses also for the blocks scaled by 2^-45 and 2^40, and for inverse / plain / inverse call sequences on one BSR object; condest also on 1D Poisson and a periodic stencil; numerically singular matrices skipped.')
 TRUSTED = ['SciPy sparsetools csr/bsr scale kernels, format conversions', 'NumPy eigvals/svd on the oracle side']
-PARTIAL = ['the 0.9 lower bound of the spectral-radius estimate: oracle only', 'block diagonal / inverse, diagonals, symmetric rescaling, truncation, lumping filter, filtering projection: correspondence + oracle, no theorem']
+PARTIAL = ['the 0.9 lower bound of the spectral-radius estimate: oracle only', 'block diagonal / inverse, diagonals, symmetric rescaling, truncation, filtering projection: correspondence + oracle, no theorem']
 HEADER = ('From Coq Require Import ZArith List PrimFloat.\nImport ListNotations.\n'
           'Require Import PV.Base.Ops PV.Model.UtilsRun.\nOpen Scope Z_scope.\n')
 I32 = np.int32
